@@ -156,12 +156,16 @@ Compact(f) == IF f.ok THEN <<f.idx, f.len, f.caps>> ELSE <<>>
 \*   "optset"   (?so)t      compiled with Params.o (normally none)
 \*   "optgroup" (?so:t)     compiled with Params.o (normally none)
 \*   "nested"   (?-so:t)(?so:t) compiled with Params.o: the options are switched off for the first copy only
+\*   "inner"    (?:(?so)t)      an option item inside a group: its scope is the rest of that group
+\*   "innertail" (?:(?so)t)t    ... and ends with it: the second copy runs under Params.o again
 \* Params.variants: sequence of [spelling, so, o]; one TLC run covers them all
 Variants == Params.variants
 Spell(t, v) ==
   CASE v.spelling = "optset"   -> Cat2(OptSet(v.so, <<>>), t)
     [] v.spelling = "optgroup" -> OptG(v.so, <<>>, t)
     [] v.spelling = "nested"   -> Cat2(OptG(<<>>, v.so, t), OptG(v.so, <<>>, t))
+    [] v.spelling = "inner"    -> OptG(<<>>, <<>>, Cat2(OptSet(v.so, <<>>), t))
+    [] v.spelling = "innertail" -> Cat2(OptG(<<>>, <<>>, Cat2(OptSet(v.so, <<>>), t)), t)
     [] OTHER -> t
 
 Emit(pid, vi) ==
@@ -181,7 +185,7 @@ Emit(pid, vi) ==
                 [st \in 1..(Len(Inputs[k]) + 1) |-> Compact(Find(e, Inputs[k], st - 1, -1, Params.rtl))]]
       \* M: on the specification itself the inline spelling means exactly the compile-time options
       plainE == Elab(Table(TreeAt(pid)), O \cup SeqToSet(SO), Params.dia)
-      same == v.spelling \notin {"optset", "optgroup"} \/
+      same == v.spelling \notin {"optset", "optgroup", "inner"} \/
               \A k \in 1..Len(Inputs) : \A st \in 1..(Len(Inputs[k]) + 1) :
                   Compact(Find(plainE, Inputs[k], st - 1, -1, Params.rtl)) = res[k][st]
   IN (same \/ PrintT(<<"SPECDIFF", ToJson([pid |-> pid])>>)) /\ PrintT(<<"P", ToJson([pid |-> pid, vi |-> vi, o |-> v.o, fam |-> FamNames[FamIdx(pid)], p |-> p, res |-> res])>>)
